@@ -33,6 +33,7 @@ from buidl.script import (
     Script,
     ScriptPubKey,
     WitnessScript,
+    check_base58_address,
 )
 from buidl.taproot import MultiSigTapScript
 from buidl.timelock import Locktime, Sequence
@@ -1017,13 +1018,13 @@ class TxOut:
         elif address[0] in ("3", "2"):
             h = decode_base58(address)
             if len(h) == 20:
-                script_pubkey = P2SHScriptPubKey(h)
+                script_pubkey = check_base58_address(P2SHScriptPubKey(h), address)
             else:
                 raise ValueError(f"{address} is not a valid base58 p2sh address")
         elif address[0] in ("1", "m", "n"):
             h = decode_base58(address)
             if len(h) == 20:
-                script_pubkey = P2PKHScriptPubKey(h)
+                script_pubkey = check_base58_address(P2PKHScriptPubKey(h), address)
             else:
                 raise ValueError(f"{address} is not a valid base58 p2pkh address")
         else:
